@@ -149,22 +149,21 @@ Qed.
 
 (* ---------- the arg-max fold ---------- *)
 Section Fold.
-  Variable kh : N.
-  Let stp := best_step kh.
-  Let sc := score_h kh.
+  Variable sc : bytes -> N.
+  Let stp := best_step_g sc.
 
   Lemma fold_ge l acc : snd acc <= snd (fold_left stp l acc).
   Proof.
     revert acc; induction l as [|y tl IH]; intros acc; cbn [fold_left]; [lia|].
-    specialize (IH (stp acc y)). unfold stp, best_step in *. destruct (snd acc <? score_h kh y) eqn:E; cbn in *; lia.
+    specialize (IH (stp acc y)). unfold stp, best_step_g in *. destruct (snd acc <? sc y) eqn:E; cbn in *; lia.
   Qed.
 
   Lemma fold_max l acc : forall n, In n l -> sc n <= snd (fold_left stp l acc).
   Proof.
     revert acc; induction l as [|y tl IH]; intros acc n Hin; [destruct Hin|].
     cbn [fold_left]. destruct Hin as [->|Hin]; [|apply IH; exact Hin].
-    pose proof (fold_ge tl (stp acc n)) as H. unfold stp, best_step, sc in *.
-    destruct (snd acc <? score_h kh n) eqn:E; cbn in *; lia.
+    pose proof (fold_ge tl (stp acc n)) as H. unfold stp, best_step_g in *.
+    destruct (snd acc <? sc n) eqn:E; cbn in *; lia.
   Qed.
 
   (* the winner is the initial accumulator or an element of the list carrying its own score *)
@@ -175,10 +174,10 @@ Section Fold.
   Proof.
     revert acc; induction l as [|y tl IH]; intros acc; cbn [fold_left]; [left; reflexivity|].
     destruct (IH (stp acc y)) as [H|(H1 & H2 & H3)].
-    - rewrite H. unfold stp, best_step. destruct (snd acc <? score_h kh y) eqn:E; [right|left; reflexivity].
+    - rewrite H. unfold stp, best_step_g. destruct (snd acc <? sc y) eqn:E; [right|left; reflexivity].
       cbn. repeat split; auto. lia.
     - right. repeat split; [right; exact H1|exact H2|].
-      unfold stp, best_step in *. destruct (snd acc <? score_h kh y) eqn:E; cbn in *; lia.
+      unfold stp, best_step_g in *. destruct (snd acc <? sc y) eqn:E; cbn in *; lia.
   Qed.
 
   (* two accumulators: the larger one survives unchanged, or both runs end equal *)
@@ -186,13 +185,13 @@ Section Fold.
     fold_left stp l a2 = a2 \/ fold_left stp l a1 = fold_left stp l a2.
   Proof.
     revert a1 a2; induction l as [|y tl IH]; intros a1 a2 Hle; cbn [fold_left]; [left; reflexivity|].
-    destruct (snd a2 <? score_h kh y) eqn:E2.
-    - assert (stp a2 y = (y, score_h kh y)) as -> by (unfold stp, best_step; rewrite E2; reflexivity).
-      assert (stp a1 y = (y, score_h kh y)) as ->.
-      { unfold stp, best_step. assert (snd a1 <? score_h kh y = true) as -> by lia. reflexivity. }
+    destruct (snd a2 <? sc y) eqn:E2.
+    - assert (stp a2 y = (y, sc y)) as -> by (unfold stp, best_step_g; rewrite E2; reflexivity).
+      assert (stp a1 y = (y, sc y)) as ->.
+      { unfold stp, best_step_g. assert (snd a1 <? sc y = true) as -> by lia. reflexivity. }
       right. reflexivity.
-    - assert (stp a2 y = a2) as -> by (unfold stp, best_step; rewrite E2; reflexivity).
-      apply IH. unfold stp, best_step. destruct (snd a1 <? score_h kh y) eqn:E1; cbn; lia.
+    - assert (stp a2 y = a2) as -> by (unfold stp, best_step_g; rewrite E2; reflexivity).
+      apply IH. unfold stp, best_step_g. destruct (snd a1 <? sc y) eqn:E1; cbn; lia.
   Qed.
 
   (* removing the first occurrence of a name that did not win does not change the result *)
@@ -203,45 +202,135 @@ Section Fold.
     cbn [fold_left] in Hne.
     destruct (bytes_eqb y p) eqn:E.
     - apply bytes_eqb_eq in E. subst y.
-      destruct (snd acc <? score_h kh p) eqn:E1.
-      + assert (stp acc p = (p, score_h kh p)) as Hs by (unfold stp, best_step; rewrite E1; reflexivity).
+      destruct (snd acc <? sc p) eqn:E1.
+      + assert (stp acc p = (p, sc p)) as Hs by (unfold stp, best_step_g; rewrite E1; reflexivity).
         rewrite Hs in *.
-        destruct (fold_two tl acc (p, score_h kh p)) as [H|H]; [cbn; lia| |exact H].
+        destruct (fold_two tl acc (p, sc p)) as [H|H]; [cbn; lia| |exact H].
         rewrite H in Hne. cbn in Hne. congruence.
-      + assert (stp acc p = acc) as -> by (unfold stp, best_step; rewrite E1; reflexivity). reflexivity.
+      + assert (stp acc p = acc) as -> by (unfold stp, best_step_g; rewrite E1; reflexivity). reflexivity.
     - cbn [fold_left]. apply IH. exact Hne.
   Qed.
 End Fold.
 
-Definition scores_pos (k : bytes) (l : list bytes) : Prop := forall n, In n l -> 0 < score k n.
+(* ---------- the zero-score edge, exactly (abstract score function) ---------- *)
+Section FoldZero.
+  Variable sc : bytes -> N.
+  Let stp := best_step_g sc.
 
-Definition arg (k : bytes) (l : list bytes) : bytes * N := fold_left (best_step (fnv1a k)) l ([], 0).
+  (* no element beats the accumulator: the accumulator survives *)
+  Lemma fold_le_id l acc : (forall n, In n l -> sc n <= snd acc) -> fold_left stp l acc = acc.
+  Proof.
+    revert acc; induction l as [|y tl IH]; intros acc H; cbn [fold_left]; [reflexivity|].
+    assert (stp acc y = acc) as ->.
+    { unfold stp, best_step_g. pose proof (H y (or_introl eq_refl)).
+      destruct (snd acc <? sc y) eqn:E; [lia|reflexivity]. }
+    apply IH. intros n Hn. apply H. right; exact Hn.
+  Qed.
 
-Lemma owner_is_arg k l : l <> [] -> scores_pos k l -> owner k l = fst (arg k l).
+  (* the winner is the FIRST element whose score is maximal and exceeds the start value *)
+  Lemma fold_first l acc :
+    fold_left stp l acc = acc \/
+    exists l1 w l2, l = l1 ++ w :: l2 /\ fold_left stp l acc = (w, sc w) /\ snd acc < sc w /\
+                    (forall n, In n l1 -> sc n < sc w) /\ (forall n, In n l2 -> sc n <= sc w).
+  Proof.
+    revert acc; induction l as [|y tl IH]; intros acc; cbn [fold_left]; [left; reflexivity|].
+    destruct (snd acc <? sc y) eqn:E.
+    - assert (stp acc y = (y, sc y)) as Hs by (unfold stp, best_step_g; rewrite E; reflexivity).
+      rewrite Hs. right. destruct (IH (y, sc y)) as [H|(l1 & w & l2 & H1 & H2 & H3 & H4 & H5)].
+      + exists [], y, tl. split; [reflexivity|]. split; [exact H|]. split; [lia|]. split; [intros n []|].
+        intros n Hn. pose proof (fold_max sc tl (y, sc y) n Hn) as Hm. fold stp in Hm. rewrite H in Hm. exact Hm.
+      + exists (y :: l1), w, l2. cbn in H3. split; [rewrite H1; reflexivity|]. split; [exact H2|].
+        split; [lia|]. split; [|exact H5]. intros n [<-|Hn]; [exact H3|apply H4; exact Hn].
+    - assert (stp acc y = acc) as -> by (unfold stp, best_step_g; rewrite E; reflexivity).
+      destruct (IH acc) as [H|(l1 & w & l2 & H1 & H2 & H3 & H4 & H5)]; [left; exact H|right].
+      exists (y :: l1), w, l2. split; [rewrite H1; reflexivity|]. split; [exact H2|]. split; [exact H3|].
+      split; [|exact H5]. intros n [<-|Hn]; [lia|apply H4; exact Hn].
+  Qed.
+End FoldZero.
+
+Definition arg_g (sc : bytes -> N) (l : list bytes) : bytes * N := fold_left (best_step_g sc) l ([], 0).
+
+Lemma owner_g_two sc a b tl : owner_g sc (a :: b :: tl) = fst (arg_g sc (a :: b :: tl)).
+Proof. reflexivity. Qed.
+
+(* every score is 0 (and there are at least two nodes): the owner is the empty string *)
+Lemma owner_g_all_zero sc l :
+  (2 <= length l)%nat -> (forall n, In n l -> sc n = 0) -> owner_g sc l = [].
+Proof.
+  intros Hlen Hz. destruct l as [|a [|b tl]]; [cbn in Hlen; lia|cbn in Hlen; lia|].
+  rewrite owner_g_two. unfold arg_g. rewrite fold_le_id; [reflexivity|].
+  intros n Hn. rewrite (Hz n Hn). cbn. lia.
+Qed.
+
+(* some score is positive: the owner is the first node with the maximal score *)
+Lemma owner_g_first_max sc l :
+  (2 <= length l)%nat -> (exists n, In n l /\ 0 < sc n) ->
+  exists l1 l2, l = l1 ++ owner_g sc l :: l2 /\ 0 < sc (owner_g sc l) /\
+                (forall n, In n l1 -> sc n < sc (owner_g sc l)) /\
+                (forall n, In n l2 -> sc n <= sc (owner_g sc l)).
+Proof.
+  intros Hlen (n & Hn & Hpos). destruct l as [|a [|b tl]]; [cbn in Hlen; lia|cbn in Hlen; lia|].
+  rewrite owner_g_two. unfold arg_g.
+  destruct (fold_first sc (a :: b :: tl) ([], 0)) as [H|(l1 & w & l2 & H1 & H2 & H3 & H4 & H5)].
+  - exfalso. pose proof (fold_max sc (a :: b :: tl) ([], 0) n Hn) as Hm. rewrite H in Hm. cbn in Hm. lia.
+  - rewrite H2. cbn [fst]. exists l1, l2. cbn in H3. repeat split; auto.
+Qed.
+
+(* membership, exactly: the owner is a peer iff some score is positive or "" is itself a peer *)
+Lemma owner_g_in_iff sc l :
+  (2 <= length l)%nat -> (In (owner_g sc l) l <-> (exists n, In n l /\ 0 < sc n) \/ In [] l).
+Proof.
+  intros Hlen. split.
+  - intros Hin. destruct l as [|a [|b tl]]; [cbn in Hlen; lia|cbn in Hlen; lia|].
+    rewrite owner_g_two in Hin. unfold arg_g in Hin.
+    destruct (fold_in sc (a :: b :: tl) ([], 0)) as [H|(H1 & H2 & H3)].
+    + right. rewrite H in Hin. exact Hin.
+    + left. eexists. split; [exact H1|]. rewrite <- H2. cbn in H3. exact H3.
+  - intros [Hex|Hnil].
+    + destruct (owner_g_first_max sc l Hlen Hex) as (l1 & l2 & H1 & _). rewrite H1 at 2.
+      apply in_or_app. right. left. reflexivity.
+    + destruct l as [|a [|b tl]]; [cbn in Hlen; lia|cbn in Hlen; lia|].
+      rewrite owner_g_two. unfold arg_g.
+      destruct (fold_in sc (a :: b :: tl) ([], 0)) as [H|(H1 & _)]; [rewrite H; exact Hnil|exact H1].
+Qed.
+
+(* with all scores 0 membership and removal-minimality fail (for a score function; whether the
+   FNV/Wang score ever has an all-zero row is not decided here) *)
+Definition sc0 : bytes -> N := fun _ => 0.
+Lemma owner_g_zero_not_member : ~ In (owner_g sc0 [[97]; [98]]) [[97]; [98]].
+Proof. vm_compute. intros [H|[H|[]]]; discriminate. Qed.
+Lemma removal_minimal_g_zero_refuted :
+  owner_g sc0 (remove_first [97] [[97]; [98]]) <> owner_g sc0 [[97]; [98]] /\ owner_g sc0 [[97]; [98]] <> [97].
+Proof. vm_compute. split; discriminate. Qed.
+
+(* ---------- guarded forms (no zero score) ---------- *)
+Definition pos_g (sc : bytes -> N) (l : list bytes) : Prop := forall n, In n l -> 0 < sc n.
+
+Lemma owner_g_is_arg sc l : l <> [] -> pos_g sc l -> owner_g sc l = fst (arg_g sc l).
 Proof.
   intros Hne Hpos. destruct l as [|a [|b tl]]; [congruence| |reflexivity].
-  cbn. unfold best_step. cbn. specialize (Hpos a (or_introl eq_refl)). unfold score in Hpos.
-  assert (0 <? score_h (fnv1a k) a = true) as -> by lia. reflexivity.
+  cbn. unfold best_step_g. cbn. specialize (Hpos a (or_introl eq_refl)).
+  assert (0 <? sc a = true) as -> by lia. reflexivity.
 Qed.
 
-Lemma arg_in k l : l <> [] -> scores_pos k l -> In (fst (arg k l)) l.
+Lemma arg_g_in sc l : l <> [] -> pos_g sc l -> In (fst (arg_g sc l)) l.
 Proof.
-  intros Hne Hpos. unfold arg. destruct (fold_in (fnv1a k) l ([], 0)) as [H|(H & _)]; [|exact H].
+  intros Hne Hpos. unfold arg_g. destruct (fold_in sc l ([], 0)) as [H|(H & _)]; [|exact H].
   exfalso. destruct l as [|a tl]; [congruence|].
-  pose proof (fold_max (fnv1a k) (a :: tl) ([], 0) a (or_introl eq_refl)) as Hm.
-  rewrite H in Hm. cbn in Hm. specialize (Hpos a (or_introl eq_refl)). unfold score in Hpos. lia.
+  pose proof (fold_max sc (a :: tl) ([], 0) a (or_introl eq_refl)) as Hm.
+  rewrite H in Hm. cbn in Hm. specialize (Hpos a (or_introl eq_refl)). lia.
 Qed.
 
-Lemma owner_in k l : l <> [] -> scores_pos k l -> In (owner k l) l.
-Proof. intros. rewrite owner_is_arg by assumption. apply arg_in; assumption. Qed.
+Lemma owner_g_in sc l : l <> [] -> pos_g sc l -> In (owner_g sc l) l.
+Proof. intros. rewrite owner_g_is_arg by assumption. apply arg_g_in; assumption. Qed.
 
-Lemma owner_max k l : l <> [] -> scores_pos k l -> forall n, In n l -> score k n <= score k (owner k l).
+Lemma owner_g_max sc l : l <> [] -> pos_g sc l -> forall n, In n l -> sc n <= sc (owner_g sc l).
 Proof.
-  intros Hne Hpos n Hin. rewrite owner_is_arg by assumption. unfold arg.
-  pose proof (fold_max (fnv1a k) l ([], 0) n Hin) as Hm.
-  destruct (fold_in (fnv1a k) l ([], 0)) as [H|(_ & H2 & _)].
-  - rewrite H in Hm. cbn in Hm. specialize (Hpos n Hin). unfold score in *. lia.
-  - unfold score. rewrite <- H2. exact Hm.
+  intros Hne Hpos n Hin. rewrite owner_g_is_arg by assumption. unfold arg_g.
+  pose proof (fold_max sc l ([], 0) n Hin) as Hm.
+  destruct (fold_in sc l ([], 0)) as [H|(_ & H2 & _)].
+  - rewrite H in Hm. cbn in Hm. specialize (Hpos n Hin). lia.
+  - rewrite <- H2. exact Hm.
 Qed.
 
 Lemma remove_first_in x p l : In x (remove_first p l) -> In x l.
@@ -249,41 +338,57 @@ Proof.
   induction l as [|y tl IH]; cbn; [auto|]. destruct (bytes_eqb y p); cbn; [auto|]. intros [H|H]; auto.
 Qed.
 
-(* removing a peer changes ownership only for subscribers that peer owned *)
-Lemma removal_minimal k l p :
-  scores_pos k l -> owner k (remove_first p l) <> owner k l -> owner k l = p.
+
+Lemma removal_minimal_g sc l p :
+  pos_g sc l -> owner_g sc (remove_first p l) <> owner_g sc l -> owner_g sc l = p.
 Proof.
   intros Hpos Hne.
-  destruct (list_eq_dec N.eq_dec (owner k l) p) as [E|E]; [exact E|exfalso].
+  destruct (list_eq_dec N.eq_dec (owner_g sc l) p) as [E|E]; [exact E|exfalso].
   destruct l as [|a tl]; [apply Hne; reflexivity|].
   assert (Hl : a :: tl <> []) by discriminate.
-  rewrite (owner_is_arg k (a :: tl) Hl Hpos) in E, Hne.
+  rewrite (owner_g_is_arg sc (a :: tl) Hl Hpos) in E, Hne.
   assert (Hrm : remove_first p (a :: tl) <> []).
-  { intros Hnil. pose proof (arg_in k (a :: tl) Hl Hpos) as Hin.
+  { intros Hnil. pose proof (arg_g_in sc (a :: tl) Hl Hpos) as Hin.
     cbn in Hnil. destruct (bytes_eqb a p) eqn:Eap; [|discriminate]. subst tl.
-    apply bytes_eqb_eq in Eap. subst a. unfold arg in E. cbn in E, Hin. destruct Hin as [Hin|[]]. congruence. }
-  assert (Hpos' : scores_pos k (remove_first p (a :: tl))).
+    apply bytes_eqb_eq in Eap. subst a. unfold arg_g in E. cbn in E, Hin. destruct Hin as [Hin|[]]. congruence. }
+  assert (Hpos' : pos_g sc (remove_first p (a :: tl))).
   { intros n Hn. apply Hpos. eapply remove_first_in; eauto. }
-  rewrite (owner_is_arg k _ Hrm Hpos') in Hne. apply Hne. unfold arg.
+  rewrite (owner_g_is_arg sc _ Hrm Hpos') in Hne. apply Hne. unfold arg_g.
   f_equal. apply fold_remove. exact E.
 Qed.
+
+(* the code's instance: sc := score k *)
+Definition scores_pos (k : bytes) (l : list bytes) : Prop := forall n, In n l -> 0 < score k n.
+Definition arg (k : bytes) (l : list bytes) : bytes * N := arg_g (score k) l.
+
+Lemma owner_in k l : l <> [] -> scores_pos k l -> In (owner k l) l.
+Proof. exact (owner_g_in (score k) l). Qed.
+
+Lemma owner_max k l : l <> [] -> scores_pos k l -> forall n, In n l -> score k n <= score k (owner k l).
+Proof. exact (owner_g_max (score k) l). Qed.
+
+Lemma removal_minimal k l p :
+  scores_pos k l -> owner k (remove_first p l) <> owner k l -> owner k l = p.
+Proof. exact (removal_minimal_g (score k) l p). Qed.
 
 (* ---------- ranked ---------- *)
 Lemma insert_r_perm x l : Permutation (insert_r x l) (x :: l).
 Proof.
   induction l as [|y tl IH]; cbn; [reflexivity|].
-  destruct (fst y <? fst x); [reflexivity|]. rewrite IH. apply perm_swap.
+  destruct (fst y <=? fst x); [reflexivity|]. rewrite IH. apply perm_swap.
 Qed.
 
 Lemma sort_r_perm l : Permutation (fold_right insert_r [] l) l.
 Proof. induction l as [|x tl IH]; cbn; [reflexivity|]. rewrite insert_r_perm. constructor. exact IH. Qed.
 
-Lemma ranked_perm k l : Permutation (ranked k l) l.
+Lemma ranked_g_perm sc l : Permutation (ranked_g sc l) l.
 Proof.
   destruct l as [|a [|b tl]]; [reflexivity|reflexivity|].
-  unfold ranked. set (d := map _ (a :: b :: tl)).
+  unfold ranked_g. set (d := map _ (a :: b :: tl)).
   rewrite (Permutation_map snd (sort_r_perm d)). subst d. rewrite map_map. cbn [snd]. rewrite map_id. reflexivity.
 Qed.
+Lemma ranked_perm k l : Permutation (ranked k l) l.
+Proof. exact (ranked_g_perm _ l). Qed.
 
 Definition ge_fst (a b : N * bytes) : Prop := fst b <= fst a.
 
@@ -291,7 +396,7 @@ Lemma insert_r_sorted x l : StronglySorted ge_fst l -> StronglySorted ge_fst (in
 Proof.
   induction l as [|y tl IH]; cbn; intros Hs; [repeat constructor|].
   inversion Hs as [|? ? Htl Hy]; subst.
-  destruct (fst y <? fst x) eqn:E.
+  destruct (fst y <=? fst x) eqn:E.
   - constructor; [exact Hs|]. constructor; [unfold ge_fst; lia|].
     eapply Forall_impl; [|exact Hy]. unfold ge_fst. intros; lia.
   - constructor; [auto|]. eapply Permutation_Forall; [symmetry; apply insert_r_perm|].
@@ -301,38 +406,56 @@ Qed.
 Lemma sort_r_sorted l : StronglySorted ge_fst (fold_right insert_r [] l).
 Proof. induction l as [|x tl IH]; cbn; [constructor|]. apply insert_r_sorted, IH. Qed.
 
-Lemma ranked_head_max k l h r : ranked k l = h :: r -> forall n, In n l -> score k n <= score k h.
+Lemma ranked_g_head_max sc l h r : ranked_g sc l = h :: r -> forall n, In n l -> sc n <= sc h.
 Proof.
   destruct l as [|a [|b tl]]; [discriminate| |].
   - intros H n [->|[]]. injection H as <- _. lia.
-  - unfold ranked. set (d := map _ (a :: b :: tl)). intros H n Hin.
+  - unfold ranked_g. set (d := map _ (a :: b :: tl)). intros H n Hin.
     pose proof (sort_r_sorted d) as Hs. pose proof (sort_r_perm d) as Hp.
     destruct (fold_right insert_r [] d) as [|[hs hn] rest] eqn:Ed; [discriminate|].
     cbn in H. injection H as <- _.
-    assert (Hd : forall x, In x d -> fst x = score k (snd x)).
+    assert (Hd : forall x, In x d -> fst x = sc (snd x)).
     { subst d. intros x Hx. apply in_map_iff in Hx. destruct Hx as (m & <- & _). reflexivity. }
-    assert (Hh : hs = score k hn).
+    assert (Hh : hs = sc hn).
     { apply (Hd (hs, hn)). eapply Permutation_in; [exact Hp|left; reflexivity]. }
-    assert (In (score k n, n) d) as Hnd by (subst d; apply in_map_iff; exists n; split; [reflexivity|exact Hin]).
+    assert (In (sc n, n) d) as Hnd by (subst d; apply in_map_iff; exists n; split; [reflexivity|exact Hin]).
     eapply Permutation_in in Hnd; [|symmetry; exact Hp].
     inversion Hs as [|? ? _ Hall]; subst. destruct Hnd as [E|Hnd].
     + injection E as E1 E2. subst. lia.
     + rewrite Forall_forall in Hall. specialize (Hall _ Hnd). unfold ge_fst in Hall. cbn in Hall. lia.
 Qed.
 
+Definition inj_g (sc : bytes -> N) (l : list bytes) : Prop :=
+  forall a b, In a l -> In b l -> sc a = sc b -> a = b.
 Definition scores_inj (k : bytes) (l : list bytes) : Prop :=
   forall a b, In a l -> In b l -> score k a = score k b -> a = b.
 
-Lemma ranked_head_owner k l h r :
-  scores_pos k l -> scores_inj k l -> ranked k l = h :: r -> h = owner k l.
+Lemma ranked_g_head_owner sc l h r :
+  pos_g sc l -> inj_g sc l -> ranked_g sc l = h :: r -> h = owner_g sc l.
 Proof.
   intros Hpos Hinj Hr.
   assert (Hl : l <> []) by (intros ->; discriminate).
-  assert (Hh : In h l) by (eapply Permutation_in; [apply ranked_perm|]; rewrite Hr; left; reflexivity).
-  pose proof (owner_in k l Hl Hpos) as Ho.
+  assert (Hh : In h l) by (eapply Permutation_in; [apply ranked_g_perm|]; rewrite Hr; left; reflexivity).
+  pose proof (owner_g_in sc l Hl Hpos) as Ho.
   apply Hinj; auto. apply N.le_antisymm.
-  - apply owner_max; auto.
-  - eapply ranked_head_max; eauto.
+  - apply owner_g_max; auto.
+  - eapply ranked_g_head_max; eauto.
+Qed.
+Lemma ranked_head_owner k l h r :
+  scores_pos k l -> scores_inj k l -> ranked k l = h :: r -> h = owner k l.
+Proof. exact (ranked_g_head_owner (score k) l h r). Qed.
+
+(* all scores 0: the ranked list is the node list itself (sorted order), its head is a node, while
+   the owner is "" (owner_g_all_zero): GetOwner and the node Allocate routes to disagree *)
+Lemma ranked_g_all_zero sc l : (forall n, In n l -> sc n = 0) -> ranked_g sc l = l.
+Proof.
+  intros Hz. destruct l as [|a [|b tl]]; [reflexivity|reflexivity|].
+  unfold ranked_g. remember (a :: b :: tl) as l0 eqn:El. clear El a b tl.
+  assert (H : fold_right insert_r [] (map (fun n => (sc n, n)) l0) = map (fun n => (0, n)) l0).
+  { induction l0 as [|x tl IH]; [reflexivity|]. cbn [map fold_right].
+    rewrite IH by (intros n Hn; apply Hz; right; exact Hn). rewrite (Hz x (or_introl eq_refl)).
+    destruct tl; reflexivity. }
+  rewrite H, map_map. cbn [snd]. apply map_id.
 Qed.
 
 (* ---------- health ---------- *)
